@@ -12,10 +12,12 @@ import (
 	"math/big"
 	"strings"
 	"testing"
+	"time"
 
 	admissionv1 "k8s.io/api/admission/v1"
 	corev1 "k8s.io/api/core/v1"
 	"k8s.io/apimachinery/pkg/api/resource"
+	metav1 "k8s.io/apimachinery/pkg/apis/meta/v1"
 	"k8s.io/apimachinery/pkg/runtime"
 	"k8s.io/client-go/kubernetes/scheme"
 	"pgregory.net/rapid"
@@ -198,7 +200,19 @@ type c13Cont struct {
 	Lim     map[corev1.ResourceName]c13Qty
 }
 
+// c13Meta: lifecycle metadata of the object in an UPDATE request. None of it is mentioned by the statement, so none of it may
+// matter for the verdict (in particular: a terminating pod's labels stay writable, and QoS / priority class stay immutable).
+type c13Meta struct {
+	Terminating bool   // metadata.deletionTimestamp set (a fixed instant, never the wall clock)
+	Grace       *int64 // metadata.deletionGracePeriodSeconds
+	Finalizers  []string
+	Owner       bool // controlled by a ReplicaSet
+	Phase       corev1.PodPhase
+	NodeName    string
+}
+
 type c13Pod struct {
+	Meta     c13Meta
 	Labels   map[string]string
 	Priority *int32
 	Conts    []c13Cont
@@ -244,12 +258,17 @@ func (p *c13Pod) clone() *c13Pod {
 		}
 		return out
 	}
-	q := &c13Pod{Labels: map[string]string{}, Conts: cc(p.Conts), Inits: cc(p.Inits), Overhead: cp(p.Overhead), PodReq: cp(p.PodReq)}
+	q := &c13Pod{Meta: p.Meta, Labels: map[string]string{}, Conts: cc(p.Conts), Inits: cc(p.Inits), Overhead: cp(p.Overhead), PodReq: cp(p.PodReq)}
 	for k, v := range p.Labels {
 		q.Labels[k] = v
 	}
 	if p.Labels == nil {
 		q.Labels = nil
+	}
+	q.Meta.Finalizers = append([]string(nil), p.Meta.Finalizers...)
+	if p.Meta.Grace != nil {
+		g := *p.Meta.Grace
+		q.Meta.Grace = &g
 	}
 	if p.Priority != nil {
 		v := *p.Priority
@@ -263,6 +282,18 @@ func (p *c13Pod) build() *corev1.Pod {
 	pod.Name, pod.Namespace = "p", "default"
 	pod.Labels = p.Labels
 	pod.Spec.Priority = p.Priority
+	if p.Meta.Terminating {
+		ts := metav1.NewTime(time.Date(2024, 1, 1, 0, 0, 0, 0, time.UTC))
+		pod.DeletionTimestamp = &ts
+		pod.DeletionGracePeriodSeconds = p.Meta.Grace
+	}
+	pod.Finalizers = p.Meta.Finalizers
+	if p.Meta.Owner {
+		yes := true
+		pod.OwnerReferences = []metav1.OwnerReference{{APIVersion: "apps/v1", Kind: "ReplicaSet", Name: "rs", UID: "rs-uid", Controller: &yes, BlockOwnerDeletion: &yes}}
+	}
+	pod.Status.Phase = p.Meta.Phase
+	pod.Spec.NodeName = p.Meta.NodeName
 	mk := func(in []c13Cont) []corev1.Container {
 		var out []corev1.Container
 		for _, c := range in {
@@ -298,6 +329,13 @@ func (p *c13Pod) render() map[string]any {
 	}
 	if p.PodReq != nil {
 		m["podLevelRequests"] = c13RLStr(p.PodReq)
+	}
+	if mt := p.Meta; mt.Terminating || mt.Owner || len(mt.Finalizers) > 0 || mt.Phase != "" || mt.NodeName != "" {
+		mm := map[string]any{"terminating": mt.Terminating, "finalizers": mt.Finalizers, "ownerReference": mt.Owner, "phase": string(mt.Phase), "nodeName": mt.NodeName}
+		if mt.Grace != nil {
+			mm["deletionGracePeriodSeconds"] = *mt.Grace
+		}
+		m["lifecycle"] = mm
 	}
 	return m
 }
@@ -605,6 +643,55 @@ func c13Mutate(t *rapid.T, old *c13Pod, c *vk.Case) *c13Pod {
 	return p
 }
 
+// c13Lifecycle decorates the two objects of an UPDATE with lifecycle metadata the statement does not mention: deletion in
+// progress (on both objects — the usual label/finalizer update of a terminating pod — or appearing with this update), grace period,
+// finalizers (kept, removed, added), an owner reference, a status phase, an assigned node.
+func c13Lifecycle(t *rapid.T, oldP, newP *c13Pod) {
+	switch rapid.SampledFrom([]string{"live", "both", "live", "both", "new-only", "live"}).Draw(t, "terminating") {
+	case "both":
+		oldP.Meta.Terminating, newP.Meta.Terminating = true, true
+	case "new-only":
+		newP.Meta.Terminating = true
+	}
+	if newP.Meta.Terminating {
+		switch g := rapid.SampledFrom([]int64{30, 0, -1, 1, 3600}).Draw(t, "gracePeriod"); {
+		case g >= 0:
+			newP.Meta.Grace = &g
+			if oldP.Meta.Terminating {
+				og := g
+				oldP.Meta.Grace = &og
+			}
+		}
+	}
+	switch rapid.IntRange(0, 3).Draw(t, "finalizers") {
+	case 1: // kept
+		oldP.Meta.Finalizers, newP.Meta.Finalizers = []string{"example.com/guard"}, []string{"example.com/guard"}
+	case 2: // one removed by this update
+		oldP.Meta.Finalizers, newP.Meta.Finalizers = []string{"example.com/guard", "koordinator.sh/cleanup"}, []string{"example.com/guard"}
+	case 3: // the last one removed / one added
+		if rapid.Bool().Draw(t, "finalizerAdded") {
+			newP.Meta.Finalizers = []string{"example.com/guard"}
+		} else {
+			oldP.Meta.Finalizers = []string{"example.com/guard"}
+		}
+	}
+	if rapid.Bool().Draw(t, "ownerReference") {
+		oldP.Meta.Owner, newP.Meta.Owner = true, true
+	}
+	phases := []corev1.PodPhase{"", corev1.PodRunning, corev1.PodPending, corev1.PodSucceeded, corev1.PodFailed}
+	oldP.Meta.Phase = rapid.SampledFrom(phases).Draw(t, "oldPhase")
+	newP.Meta.Phase = oldP.Meta.Phase
+	if rapid.IntRange(0, 2).Draw(t, "phaseChanges") == 0 {
+		newP.Meta.Phase = rapid.SampledFrom(phases).Draw(t, "newPhase")
+	}
+	switch rapid.IntRange(0, 3).Draw(t, "nodeName") {
+	case 1, 2:
+		oldP.Meta.NodeName, newP.Meta.NodeName = "node-1", "node-1"
+	case 3:
+		newP.Meta.NodeName = "node-1"
+	}
+}
+
 // ---------------------------------------------------------------- oracle
 
 type c13Verdict struct {
@@ -668,6 +755,7 @@ func TestVerifC13Validating(t *testing.T) {
 		if isUpdate {
 			oldP = c13GenPod(t, c)
 			newP = c13Mutate(t, oldP, c)
+			c13Lifecycle(t, oldP, newP)
 		} else {
 			newP = c13GenPod(t, c)
 		}
@@ -736,6 +824,17 @@ func TestVerifC13Validating(t *testing.T) {
 		}
 		c.ClassIf(newP.podRequest(c13BatchCPU).Sign() != 0 || newP.podRequest(c13BatchMem).Sign() != 0, "requests-batch-resources")
 		if isUpdate {
+			classChanged := c13QoSOf(oldP.Labels) != qos || c13PrioOf(oldP.Labels, oldP.Priority) != prio
+			c.ClassIf(newP.Meta.Terminating, "update:new-object-terminating")
+			c.ClassIf(oldP.Meta.Terminating, "update:old-object-terminating")
+			c.ClassIf(newP.Meta.Terminating && classChanged, "update:terminating+qos-or-priority-class-changed")
+			c.ClassIf(newP.Meta.Terminating && !classChanged && len(v.Failed) == 0 && len(v.Extra) == 0, "update:terminating+nothing-broken")
+			c.ClassIf(len(oldP.Meta.Finalizers) > 0 || len(newP.Meta.Finalizers) > 0, "update:finalizers")
+			c.ClassIf(len(oldP.Meta.Finalizers) != len(newP.Meta.Finalizers), "update:finalizers-changed")
+			c.ClassIf(newP.Meta.Owner, "update:owner-reference")
+			c.ClassIf(newP.Meta.NodeName != "", "update:node-assigned")
+			c.ClassIf(newP.Meta.Phase != "", "update:status-phase-set")
+			c.ClassIf(newP.Meta.Phase != oldP.Meta.Phase, "update:status-phase-changed")
 			c.ClassIf(c13QoSOf(oldP.Labels) == qos && oldP.Labels[c13LabelQoS] != newP.Labels[c13LabelQoS], "update:qos-label-text-changed-class-same")
 			c.ClassIf(c13PrioOf(oldP.Labels, oldP.Priority) == prio && oldP.Priority != nil && newP.Priority != nil && *oldP.Priority != *newP.Priority, "update:priority-value-changed-class-same")
 		}
